@@ -472,3 +472,151 @@ core.register("C01", [
     "library's __eq__",
     "exotic slices (step != 1 other than [::-1]) are only required to raise "
     "or return a well-typed value"])
+
+
+# ------------------------------------------------------------------ translators
+
+@st.composite
+def translator_cases(draw, tier):
+    kind = draw(st.sampled_from([
+        "iqp", "real_amp", "random_tiling", "circuit2zx", "from_tk",
+        "rewire", "init_and_discard", "circuit_functor", "jacobian",
+        "grad", "to_tk_post_processing", "from_pyzx"]))
+    case = {"kind": kind, "seed": draw(st.integers(0, 10 ** 6))}
+    if kind == "iqp":
+        n = draw(st.integers(1, 4))
+        depth = draw(st.integers(0, 3))
+        case["n"] = n
+        case["params"] = [draw(st.integers(-8, 8)) / 8 for _ in range(3)]\
+            if n == 1 else [[draw(st.integers(-8, 8)) / 8
+                             for _ in range(n - 1)] for _ in range(depth)]
+    elif kind == "real_amp":
+        n, layers = draw(st.integers(2, 4)), draw(st.integers(1, 3))
+        case["params"] = [[draw(st.integers(-8, 8)) / 8 for _ in range(n)]
+                          for _ in range(layers)]
+        case["entanglement"] = draw(st.sampled_from(
+            ["full", "linear", "circular"]))
+    elif kind == "random_tiling":
+        case["n"] = draw(st.integers(1, 4))
+        case["depth"] = draw(st.integers(0, 4))
+    elif kind in ("circuit2zx",):
+        from harness.props import c16
+        case["d"] = draw(c16.zx_circuits(tier, max_boxes=6))
+    elif kind in ("from_tk",):
+        from harness.props import c13
+        case["p"] = draw(c13.tk_programs(tier))
+    elif kind == "rewire":
+        from harness.props import c11
+        case.update(draw(c11.rewire_cases(tier)))
+        case["kind"] = kind
+    elif kind in ("init_and_discard", "to_tk_post_processing"):
+        from harness.props import c13
+        case["d"] = draw(c13.export_circuits(tier))
+    elif kind == "circuit_functor":
+        case["d"] = draw(gen.diagrams("rigid", max_boxes=5, max_width=4,
+                                      names=["n", "s"],
+                                      kinds=("box", "cup", "cap", "swap")))
+        case["ob"] = {"n": draw(st.integers(0, 2)),
+                      "s": draw(st.integers(0, 2))}
+    elif kind in ("jacobian", "grad"):
+        from harness.props import c14, c15
+        case["d"] = draw(c14.symbolic_circuits(
+            tier, allow_mixed=False, exprs=c15.EXPRS, max_boxes=4,
+            gates=["rot", "rot", "named", "scalar"]))
+        case["vars"] = draw(st.lists(st.sampled_from(["u", "v"]),
+                                     unique=True, max_size=2))
+    elif kind == "from_pyzx":
+        from harness.props import c17
+        case["g"] = draw(c17.graph_cases(tier))
+    return case
+
+
+def check_translator(case):
+    kind = case["kind"]
+    out = []
+    if kind == "iqp":
+        from discopy.quantum import IQPansatz
+        out.append(IQPansatz(case["n"], case["params"]))
+    elif kind == "real_amp":
+        import numpy as np
+        from discopy.quantum.circuit import real_amp_ansatz
+        out.append(real_amp_ansatz(np.array(case["params"]),
+                                   entanglement=case["entanglement"]))
+    elif kind == "random_tiling":
+        from discopy.quantum.circuit import random_tiling
+        from discopy.quantum.gates import CX, H, T, Rx, Rz
+        out.append(random_tiling(case["n"], case["depth"], seed=case["seed"]))
+        out.append(random_tiling(case["n"], case["depth"],
+                                 gateset=[CX, H, T, Rx, Rz],
+                                 seed=case["seed"]))
+    elif kind == "circuit2zx":
+        from discopy.quantum.zx import circuit2zx
+        out.append(circuit2zx(specs.build(case["d"])))
+    elif kind == "from_tk":
+        from harness.props import c13
+        from discopy.quantum.circuit import Circuit
+        try:
+            out.append(Circuit.from_tk(c13.build_tk(case["p"])))
+        except NotImplementedError:
+            return dict(nt=False, labels=[kind, "NotImplementedError"])
+    elif kind == "rewire":
+        from discopy.quantum.gates import rewire
+        from discopy.quantum.circuit import qubit
+        op = specs.build(case["op"])
+        if not case["op"]["layers"] or len(op.cod) != 2:
+            return dict(nt=False, labels=[kind, "n/a"])
+        out.append(rewire(op, case["a"], case["b"], dom=qubit ** case["n"]))
+    elif kind == "init_and_discard":
+        d = specs.build(case["d"])
+        out.append(d.init_and_discard())
+        out.append(type(d).cups(d.cod[:2], d.cod[:2].r)
+                   if len(d.cod) >= 1 else d)
+    elif kind == "to_tk_post_processing":
+        d = specs.build(case["d"])
+        try:
+            tk = d.to_tk()
+        except (NotImplementedError, IndexError):
+            return dict(nt=False, labels=[kind, "refused"])
+        out.append(tk.post_processing)
+    elif kind == "circuit_functor":
+        from discopy import rigid
+        from discopy.quantum import circuit, gates
+        d = specs.build(case["d"])
+        ob = {rigid.Ty(n): k for n, k in case["ob"].items()}
+        F = circuit.Functor(
+            ob, lambda box: circuit.Id(0).tensor(*[
+                gates.Bra(0) for _ in range(len(F(box.dom)))]) >> circuit.Id(
+                    0).tensor(*[gates.Ket(0) for _ in range(len(F(box.cod)))]))
+        out.append(F(d))
+    elif kind in ("jacobian", "grad"):
+        from harness.props import c14
+        d = specs.build(case["d"])
+        variables = [c14.sym(v) for v in case["vars"]]
+        try:
+            out.append(d.jacobian(variables) if kind == "jacobian"
+                       else d.grad(c14.sym("u")))
+            out.append(d.grad(c14.sym("u"), mixed=False))
+        except NotImplementedError:
+            return dict(nt=False, labels=[kind, "NotImplementedError"])
+    elif kind == "from_pyzx":
+        from harness.props import c17
+        from discopy.quantum.zx import Diagram
+        g = dict(case["g"], bad=None)
+        if not g["spiders"]:
+            return dict(nt=False, labels=[kind, "empty"])
+        graph, _ = c17.build_graph(g)
+        out.append(Diagram.from_pyzx(graph))
+    big = False
+    for value in out:
+        specs.well_typed(value, kind)
+        if hasattr(value, "boxes") and len(value.boxes) >= 2:
+            big = True
+    return dict(nt=big, labels=[kind],
+                show="{}: {}".format(kind, common.show(out[0], 200)))
+
+
+core.PROPERTIES["C01"]["facets"]["translators"] = Facet(
+    "translators", translator_cases, check_translator, n_quick=480,
+    shards_quick=8, rule="outputs of ansaetze, circuit2zx, from_tk, "
+    "from_pyzx, rewire, init_and_discard, circuit functors, gradients, "
+    "jacobians and to_tk post-processing on generated inputs are re-scanned")
